@@ -1,5 +1,151 @@
 import Oracle.J
+import Eru.Store.Ephemeral
+/-
+Oracle for C26: replays a schedule (register / deregister / lapse / wait-one-heartbeat-interval)
+on the etcd and Redis ephemeral-key protocol models, compares with what the real
+`StartEphemeral` implementations did, and evaluates the property's clauses (exclusive,
+lapse notified, owner-safe) on the implementations' observations.
+-/
 namespace Oracle.Ephemeral
-open Lean Oracle
-def handle (j : Json) : Json := Json.mkObj [("id", jget j "id"), ("agree", false), ("spec", Json.arr #[]), ("class", "todo")]
+open Lean Oracle Eru.Store.Ephemeral
+
+def nRegs : Nat := 3
+def fast : Nat := 1
+def slow : Nat := 2
+def clsOf (s : String) : Nat := if s == "slow" then slow else fast
+def clsName (c : Nat) : String := if c == slow then "long" else if c == fast then "short" else "-"
+
+structure Obs where
+  res : String          -- "ok" | "exists" | "-"
+  key : Bool
+  ttl : String          -- "short" | "long" | "-"   (meaningful after a wait)
+  notified : List Bool  -- (meaningful after a wait)
+  deriving BEq, Repr
+
+def obsOf (j : Json) : Obs :=
+  { res := jstr (jget j "r"), key := jbool (jget j "key"), ttl := jstr (jget j "ttl"),
+    notified := (jarr (jget j "notified")).map jbool }
+
+def regsList (f : Nat → Reg) : List Reg := (List.range nRegs).map f
+
+/-! #### protocol models driven by schedule events -/
+def etcdEvent (s : Etcd) (ev : String) (p cls : Nat) : Etcd × String :=
+  match ev with
+  | "reg" => let (s', ok) := s.step (.register p cls); (s', if ok then "ok" else "exists")
+  | "dereg" => ((s.step (.deregister p)).1, "-")
+  | "lapse" => (match s.key with | some l => (s.step (.expire l)).1 | none => s, "-")
+  | "wait" =>
+    ((List.range nRegs).foldl (fun s q =>
+      match s.regs q with
+      | .holding l => if s.ttl l == fast then (s.step (.heartbeat q)).1 else s
+      | _ => s) s, "-")
+  | _ => (s, "-")
+
+def etcdObs (s : Etcd) (res : String) : Obs :=
+  { res := res, key := s.key.isSome,
+    ttl := match s.key with | some l => clsName (s.ttl l) | none => "-",
+    notified := (regsList s.regs).map fun r => r == .notified }
+
+def redisEvent (s : Redis) (ev : String) (p cls : Nat) : Redis × String :=
+  match ev with
+  | "reg" => let (s', ok) := s.step (.register p cls); (s', if ok then "ok" else "exists")
+  | "dereg" => ((s.step (.deregister p)).1, "-")
+  | "lapse" => ((s.step .expire).1, "-")
+  | "wait" =>
+    ((List.range nRegs).foldl (fun s q =>
+      match s.regs q with
+      | .holding t => if t == fast then (s.step (.heartbeat q)).1 else s
+      | _ => s) s, "-")
+  | _ => (s, "-")
+
+def redisObs (s : Redis) (res : String) : Obs :=
+  { res := res, key := s.key.isSome,
+    ttl := match s.key with | some (_, t) => clsName t | none => "-",
+    notified := (regsList s.regs).map fun r => r == .notified }
+
+/-- compare: results and key presence always; ttl class and notifications after a wait -/
+def obsAgree (ev : String) (m i : Obs) : Bool :=
+  m.res == i.res && m.key == i.key && (ev != "wait" || (m.ttl == i.ttl && m.notified == i.notified))
+
+/-! #### the property's clauses on the implementation's observations -/
+structure Ghost where
+  creator : Option Nat := none         -- who created the key that is there now
+  regd : List Bool := [false, false, false]
+  cls : List Nat := [0, 0, 0]
+  lapsed : List Bool := [false, false, false]   -- its registration lapsed since it registered
+  keyBefore : Bool := false
+
+def setAt {α} (l : List α) (i : Nat) (v : α) : List α := l.set i v
+
+def ghostStep (b : String) (g : Ghost) (ev : String) (p cls : Nat) (o : Obs) : Ghost × List String :=
+  let g0 := g
+  let (g, tags) : Ghost × List String :=
+    match ev with
+    | "reg" =>
+      if o.res == "ok" then
+        ({ g with creator := some p, regd := setAt g.regd p true, cls := setAt g.cls p cls,
+                  lapsed := setAt g.lapsed p false },
+         if g0.keyBefore then [s!"C26:{b}-register-over-existing"] else [])
+      else (g, [])
+    | "dereg" =>
+      let g' := { g with regd := setAt g.regd p false }
+      if g.creator == some p then ({ g' with creator := none }, [])
+      else if g0.keyBefore && !o.key then ({ g' with creator := none }, [s!"C26:{b}-foreign-delete"])
+      else (g', [])
+    | "lapse" =>
+      match g.creator with
+      | some c => ({ g with creator := none, lapsed := setAt g.lapsed c true }, [])
+      | none => (g, [])
+    | "wait" =>
+      let idx := List.range nRegs
+      let unnoticed := idx.any fun q =>
+        g.regd.getD q false && g.cls.getD q 0 == fast && g.lapsed.getD q false && !(o.notified.getD q false)
+      let believers := idx.filter fun q =>
+        g.regd.getD q false && !(o.notified.getD q false) && !(g.cls.getD q 0 == slow && g.lapsed.getD q false)
+      let foreign := match g.creator with
+        | some c => o.key && o.ttl != clsName (g.cls.getD c 0)
+        | none => false
+      (g, (if unnoticed then [s!"C26:{b}-lapse-unnoticed"] else []) ++
+          (if believers.length > 1 then [s!"C26:{b}-not-exclusive"] else []) ++
+          (if foreign then [s!"C26:{b}-foreign-refresh"] else []))
+    | _ => (g, [])
+  ({ g with keyBefore := o.key }, tags)
+
+def dedupS : List String → List String
+  | [] => []
+  | x :: t => x :: (dedupS t).filter (· != x)
+
+def handle (j : Json) : Json :=
+  let id := jget j "id"
+  let evs := jarr (jget j "events")
+  let ie := jarr (jget (jget j "impl") "etcd")
+  let ir := jarr (jget (jget j "impl") "redis")
+  let init : Etcd × Redis × Ghost × Ghost × Bool × List String × Nat × Option Json := ({}, {}, {}, {}, true, [], 0, none)
+  let (_, _, _, _, agree, tags, _, bad) := evs.foldl (fun acc ej =>
+    let (se, sr, ge, gr, ok, tags, i, bad) := acc
+    let ev := jstr (jget ej "ev")
+    let p := jnat (jget ej "p")
+    let cls := clsOf (jstr (jget ej "cls"))
+    let oe := obsOf (ie.getD i Json.null)
+    let or_ := obsOf (ir.getD i Json.null)
+    let (se', re) := etcdEvent se ev p cls
+    let (sr', rr) := redisEvent sr ev p cls
+    let me := etcdObs se' re
+    let mr := redisObs sr' rr
+    let okE := obsAgree ev me oe
+    let okR := obsAgree ev mr or_
+    let (ge', te) := ghostStep "etcd" ge ev p cls oe
+    let (gr', tr) := ghostStep "redis" gr ev p cls or_
+    let bad' := if (okE && okR) || bad.isSome then bad else
+      some (Json.mkObj [("step", ji i), ("event", ej), ("backend", Json.str (if okE then "redis" else "etcd")),
+        ("model", Json.str (reprStr (if okE then mr else me))), ("impl", Json.str (reprStr (if okE then or_ else oe)))])
+    (se', sr', ge', gr', ok && okE && okR, tags ++ te ++ tr, i + 1, bad')) init
+  let specs := dedupS tags
+  let lapses := (evs.filter fun e => jstr (jget e "ev") == "lapse").length
+  Json.mkObj [("id", id), ("agree", agree && ie.length == evs.length && ir.length == evs.length),
+              ("model", bad.getD (Json.mkObj [("events", ji evs.length)])),
+              ("spec", Json.arr (specs.map Json.str).toArray),
+              ("class", Json.str (if lapses > 0 then "eph+lapse" else "eph")),
+              ("trivial", Json.bool (evs.length < 3))]
+
 end Oracle.Ephemeral
